@@ -2239,7 +2239,20 @@ XPathProcessorImpl::LocationPath()
 
     if(m_token.empty() == false && isRootOnly == false)
     {
+        // A relative location path needs at least one step.
+        if (isAbsolute == false &&
+            tokenIs(XalanUnicode::charRightParenthesis) == true)
+        {
+            error(
+                XalanMessages::UnexpectedTokenFound_1Param,
+                m_token);
+        }
+
         RelativeLocationPath();
+    }
+    else if (isAbsolute == false)
+    {
+        error(XalanMessages::ExpectedNodeTest);
     }
 
     // Terminate for safety.
